@@ -47,12 +47,12 @@ Definition verdict_ok (issuer : ca) (now : Z) (c : cert) (v : verdict) : bool :=
   Bool.eqb (x509_ok (v_check_subject v) issuer c (now + v_time_off v)%Z (v_target v)) (v_ok v).
 
 Definition model_issue_on (tab : idna_tab) :=
-  issue_on (tab_lookup tab) VALIDITY_OFFSET CERT_EXPIRY CN_GUARDED.
+  issue_on (tab_lookup tab) VALIDITY_OFFSET CERT_EXPIRY CN_GUARDED SAN_CRIT_BY_SUBJECT.
 
 Definition check_case (c : case) : bool :=
   match c with
   | Issue tab issuer serial now tz r out vs =>
-      let m := issue (tab_lookup tab) VALIDITY_OFFSET CERT_EXPIRY CN_GUARDED issuer serial (now + tz)%Z r in
+      let m := issue (tab_lookup tab) VALIDITY_OFFSET CERT_EXPIRY CN_GUARDED SAN_CRIT_BY_SUBJECT issuer serial (now + tz)%Z r in
       outcome_matches m out
       && match m with
          | Ok c => forallb (verdict_ok issuer now c) vs
